@@ -12,7 +12,7 @@ from __future__ import annotations
 import bisect
 import itertools
 
-from .. import env
+from .. import env, tconc
 from ..models import BudgetModel
 from . import common
 
@@ -227,6 +227,12 @@ def run_shared(ctx, spec, rng, viol):
             model.commit(t, cost, ok)
             if ok:
                 grants.extend([t] * cost)
+        elif ev[0] == "event" and ev[3] == "budget_exhausted":
+            # justified by the state of the window itself, however the engine learnt it (a refused consume(), remaining(), ...)
+            if model.consume(ev[1], 1) == {True}:
+                lo, hi = model.live(ev[1])
+                viol("exhausted-although-capacity", f"[shared] call {ev[2]}: budget_exhausted reported at t={ev[1]} while only {hi} of {spec['max']} tokens were live", hist)
+                return False
     # per call and attempt: tokens <-> retry events
     by = {}
     for ev in sh.log:
@@ -255,9 +261,6 @@ def run_shared(ctx, spec, rng, viol):
             ctx.cnt["policy_segments"] += 1
             if s["grants"] != s["retry"]:
                 viol("token-retry-mismatch", f"[shared] call {cid} attempt {s['attempt']}: {s['grants']} token(s) granted but {s['retry']} retry event(s)", hist)
-                return False
-            if s["exhausted"] and not s["refused"]:
-                viol("exhausted-without-refusal", f"[shared] call {cid} attempt {s['attempt']}: budget_exhausted reported but no consume() was refused", hist)
                 return False
             if s["refused"] and not s["exhausted"]:
                 viol("refusal-not-reported", f"[shared] call {cid} attempt {s['attempt']}: consume() refused but no budget_exhausted event", hist)
@@ -350,6 +353,8 @@ def work(ctx, tier):
         run_shared(ctx, spec, rng, viol)
         if k < 1 and ctx.shard == 0:
             ctx.sample({"shared_budget_workload": spec})
+    # whole sync calls racing in threads on one Budget (check-then-act on the shared window shows only here)
+    tconc.thread_slice(ctx, tier, common.rng_for(ctx, "threads"), ["tokens"], budget=True, breaker=False)
     if tier != "quick":
         common.repo_suite_under_monitors(ctx, "budget")
 
@@ -366,13 +371,14 @@ def conclude(ctx):
         "windows_filled_exactly": (ctx.cnt["windows_filled_exactly"], 100),
         "clock_reads": (ctx.cnt["clock_reads"], 1000),
     }
+    floors.update(tconc.floors(ctx))
     L = 5 if ctx.tier == "quick" else 7
     return dict(
         rule=(
             f"direct: every history of length <= {L} over {{consume(1|2|3), remaining(), advance 0|step|w-step|w|w+step}} for max_retries 0..3 + random 50-step histories (max_retries 0..6, "
             "4 windows); every consume()/remaining() answer of the real Budget is compared with the shadow model and the grant log is swept for any window holding more than max_retries tokens; "
             "policy level: 2-4 real Retry/AsyncRetry policies (sync calls sequential, async calls interleaved at random by the coroutine driver) sharing one spied Budget and failing repeatedly while the "
-            "clock advances grant by grant; distinct_nontrivial = distinct (live tokens, cost, max, answer) cells"
+            "clock advances grant by grant; distinct_nontrivial = distinct (live tokens, cost, max, answer) cells" + tconc.RULE
         ),
         evaluations=ctx.cnt["steps"],
         nontrivial=len(ctx.sets["cells"]),
